@@ -133,7 +133,7 @@ def run(ctx):
                "characters of a text object (Put(Str) ops) can be recorded for conversion (object type tests: %d)" % n_obj)
     # every visible string is recorded: the record depends on nothing but the op's kind, the value's kind, the object's type, the key
     # kind / list position lookup and the two loops' own iterators
-    from .C28 import control_switches
+    from .C28 import control_switches_transitive as control_switches
     ALLOWED_TY = ("automerge::op_set2::types::OpType", "automerge::op_set2::types::ScalarValue", "automerge::types::ObjType", "automerge::op_set2::types::KeyRef", "core::option::Option")
     for k, (bi, t) in util.ordinal_keys(pushes, lambda it: "convert|record"):
         bad = []
